@@ -101,8 +101,8 @@ def generate():
     items.append(str_def("notYetCond", _norm(m.group(1))))
     items.append(str_def("notYetAction", _norm(m.group(2))))
     items.append(skel_def("skel_reclaim_start_from", skeleton(r, ["low_water_mark", r"t\.reclaimer"])))
-    if r.index("low_water_mark()") > r.index("for"):
-        raise ExtractError("reclaim_start_from: low water mark no longer read once before the loop")
+    if "low_water_mark()" not in r or r.index("low_water_mark()") > r.index("for"):
+        raise ExtractError("reclaim_start_from: the low water mark is no longer read inside it, once, before the walk")
 
     # ---- stop / retire
     s = fn("stop")
